@@ -991,18 +991,28 @@ class Atoms:
             four_body_terms.extend(self.impropers)
             four_body_terms = np.array(four_body_terms)
 
+            # CIF has a single torsion loop: merge the extra columns of dihedrals and impropers by
+            # label, using "." where a term has no value for a column.
+            four_body_labels = self.extra_dihedral_labels | self.extra_improper_labels
+            four_body_fields = np.full((len(four_body_terms), len(four_body_labels)), ".", dtype="object")
+            for j, label in enumerate(four_body_labels):
+                if label in self.extra_dihedral_labels and len(self.dihedrals) > 0:
+                    four_body_fields[:len(self.dihedrals), j] = self.extra_dihedral_fields[:, self.extra_dihedral_labels.index(label)]
+                if label in self.extra_improper_labels and len(self.impropers) > 0:
+                    four_body_fields[len(self.dihedrals):, j] = self.extra_improper_fields[:, self.extra_improper_labels.index(label)]
+
             _add_cif_loop(block, ([[
                     "_geom_torsion_atom_site_label_1",
                     "_geom_torsion_atom_site_label_2",
                     "_geom_torsion_atom_site_label_3",
                     "_geom_torsion_atom_site_label_4",
-                    *self.extra_dihedral_labels,
+                    *four_body_labels,
                 ]],[[
                     [atom_labels[i] for i in four_body_terms[:,0]],
                     [atom_labels[i] for i in four_body_terms[:,1]],
                     [atom_labels[i] for i in four_body_terms[:,2]],
                     [atom_labels[i] for i in four_body_terms[:,3]],
-                    *self.extra_dihedral_fields.T,
+                    *four_body_fields.T,
                 ]]))
 
         f.write(cf.WriteOut(comment="# CIF file created by MOFUN using PyCifRW."))
